@@ -1,10 +1,10 @@
 #!/venv/bin/python
 """prints the prompt for a seeding sub-agent: tools/agent_prompt.py <PID> <worktree> [n]"""
-import json, sys
+import json, os, sys
 pid, wt = sys.argv[1], sys.argv[2]
 n = int(sys.argv[3]) if len(sys.argv) > 3 else 2
 p = {json.loads(l)['id']: json.loads(l) for l in open('/verif/properties.jsonl')}[pid]
-print(f"""You are helping to evaluate a verification harness for the Python library sissaschool/elementpath (a pure-Python XPath 1.0/2.0/3.0/3.1 parser and evaluator over ElementTree/lxml, with XSD datatypes and a regex translator).
+text = (f"""You are helping to evaluate a verification harness for the Python library sissaschool/elementpath (a pure-Python XPath 1.0/2.0/3.0/3.1 parser and evaluator over ElementTree/lxml, with XSD datatypes and a regex translator).
 
 You have your own scratch git worktree of the library at {wt} (a checkout of the current HEAD). Work ONLY inside {wt} and /tmp/seed_{wt.split('_')[-1]} . Never read or write /repo or /verif, and do not look for any verification machinery: your work must be independent of it.
 
@@ -25,4 +25,10 @@ For EACH change k = 1..{n}:
  5. Save the change as /tmp/seed_{wt.split('_')[-1]}/k/patch.diff  (`git -C {wt} diff > .../patch.diff`), and write /tmp/seed_{wt.split('_')[-1]}/k/meta.json with keys: "property" ("{pid}"), "summary" (one sentence: what was changed), "needs" (what specific input/sequence/combination is needed for the breakage to manifest), "site" (file:function), "tests_passed" (the pytest summary line you observed with the change applied), "demo_result_with_change", "demo_result_without_change".
  6. Restore the clean tree (`git -C {wt} checkout -- .`).
 
+Practical notes: (a) `python some/dir/demo.py` puts the script's directory, not the cwd, on sys.path, and an editable install of elementpath pointing at another checkout exists in /venv - so each demo.py MUST start with `import os, sys; sys.path.insert(0, os.getcwd())` and be run with cwd={wt}; print elementpath.__file__ in the demo output. (b) NEVER use `git stash` (the stash is shared between worktrees used by other people): to compare with/without use `git -C {wt} diff > /tmp/x.diff; git -C {wt} checkout -- .; ...; git -C {wt} apply /tmp/x.diff`. (c) the test suite takes about 20 seconds.
+
 Rules: do not edit tests; do not add new files to the library; the patch must apply with `git apply` to a clean checkout; no network is available. If a candidate change makes any previously passing test fail, discard it and try another. Finish by replying with a short list of the {n} changes (summary + needs) and confirming the files written.""")
+out = '/tmp/seed_%s' % wt.split('_')[-1]
+os.makedirs(out, exist_ok=True)
+open(out + '/TASK.md', 'w').write(text)
+print(out + '/TASK.md')
